@@ -9,7 +9,12 @@ as an opaque environment object and one *generic* line item:
      never; an Err reaches the stderr printer exactly once and stdout never; Incomplete neither;
  (c) the lines come from BufRead::split(b'\\n') on standard input, with no adaptor that can drop or
      stop early, drained by for_each; every path of main returns normally and no exit/abort is
-     reachable.
+     reachable;
+ (f) what the tool prints for a line is what the library hands it: "each line that completes a
+     message produces one record containing the decoded message ... incomplete fragments produce
+     nothing ... no line affects the handling of any other line" needs the library's reassembly
+     relation (result kind, delivered payload and state left behind, std build) to be the reference
+     machine's - the comparison of C05/C06/C17, reported here under C20 keys.
 """
 from __future__ import annotations
 from ..domains import IntSet
@@ -123,6 +128,9 @@ def run(ctx, chk):
         for k, uses in sorted(LI.unknown_ext.items()):
             chk.ob(False, "C20/library-unknown-external/%s" % k, "library call to %s has no contract" % k)
     chk.ob(nlib >= 200, "C20/library-floor/%d" % nlib, "library obligation sites examined: %d" % nlib, sample={"library_obligation_sites": nlib, "status": "all discharged"})
+    # ---- (f) the reassembly relation behind the records (std build, the one the tool is built with)
+    from .c05 import compare
+    compare(ctx, chk, "C20", "std", ctx.tier)
     chk.cov["obligation_sites"] = n + nlib
     chk.cov["paths"] = len(outs)
     chk.cov["trusted_base"] = ["rustc MIR", "std::io::BufRead::split yields every '\\n'-separated chunk once, in order, then None", "Iterator::for_each visits every item in order",
